@@ -112,9 +112,10 @@ uint32_t PPPoE::header_size() const {
 
 void PPPoE::write_serialization(uint8_t* buffer, uint32_t total_sz) {
     OutputMemoryStream stream(buffer, total_sz);
-    if (tags_size_ > 0) {
-        payload_length(tags_size_);
-    }
+    // The payload is whatever follows the header: the tags and/or the inner PDU
+    payload_length(
+        static_cast<uint16_t>(tags_size_ + (inner_pdu() ? inner_pdu()->size() : 0))
+    );
     stream.write(header_);
     for (tags_type::const_iterator it = tags_.begin(); it != tags_.end(); ++it) {
         stream.write<uint16_t>(it->option());
